@@ -1,0 +1,30 @@
+//go:build verif
+
+/*
+Copyright (c) Meta Platforms, Inc. and affiliates.
+Licensed under the Apache License, Version 2.0 (the "License");
+you may not use this file except in compliance with the License.
+You may obtain a copy of the License at
+    http://www.apache.org/licenses/LICENSE-2.0
+Unless required by applicable law or agreed to in writing, software
+distributed under the License is distributed on an "AS IS" BASIS,
+WITHOUT WARRANTIES OR CONDITIONS OF ANY KIND, either express or implied.
+See the License for the specific language governing permissions and
+limitations under the License.
+*/
+
+package dnsserver
+
+import "github.com/fsnotify/fsnotify"
+
+// VerifWatchDB runs the loop of WatchDBAndReload on caller-supplied event and error
+// channels instead of an inotify watcher (simulation testing only).
+func (h *FBDNSDB) VerifWatchDB(events chan fsnotify.Event, errs chan error) error {
+	return h.watchDBAndReload(&fsnotify.Watcher{Events: events, Errors: errs})
+}
+
+// VerifWatchControlDir runs the loop of WatchControlDirAndReload on caller-supplied event
+// and error channels instead of an inotify watcher (simulation testing only).
+func (h *FBDNSDB) VerifWatchControlDir(events chan fsnotify.Event, errs chan error) error {
+	return h.watchControlDirAndReload(&fsnotify.Watcher{Events: events, Errors: errs})
+}
